@@ -182,6 +182,10 @@ def check_case(case, acc):
     tree = forest.build_tree(case["shape"], make)
     other = forest.build_tree(case.get("other", [[]]), make)
     labels = forest.Labels(tree + other)
+    intended = shapes.shape_to_parents(forest.to_tuple(case["shape"]))
+    problem = refs.links_problem(tree, intended)
+    if problem:
+        raise Violation("structure", "after building the tree: %s" % problem)
     pairs = case.get("pairs")
     if pairs is None:
         pairs = [(a, b) for a in range(len(tree)) for b in range(len(tree))]
@@ -206,6 +210,10 @@ def check_case(case, acc):
     # read - mutate - read again on the same node objects
     for op in case.get("mutations", []):
         refs.mutate_tree(tree, op)
+        refs.model_apply(intended, op)
+        problem = refs.links_problem(tree, intended)
+        if problem:
+            raise Violation("structure", "after %s: %s" % (op, problem))
         for a, b in pairs:
             if check_pair(tree[a], tree[b], labels):
                 nontrivial += 1
@@ -228,7 +236,7 @@ def _enum_cases(max_nodes, index, count):
         if k % count == index:
             size = shapes.shape_size(shape)
             # every enumerated shape is also re-checked after moving its last node under the root's first child and after detaching node 1
-            yield {"shape": forest.to_list(shape), "other": [[], [[]]], "cls": ("Node", "EqNode", "SlotLM", "FalsyNode", "Node", "EqSlotLM", "LenNode", "TupleNameNode", "ListNode", "TupleNode", "BoomRepr")[k % 11], "enumerated": True, "mutations": [["move", size - 1, 1], ["detach", 1], ["move", 0, size - 1]] if size >= 3 else []}
+            yield {"shape": forest.to_list(shape), "other": [[], [[]]], "cls": ("Node", "EqNode", "SlotLM", "FalsyNode", "Node", "EqSlotLM", "LenNode", "TupleNameNode", "ListNode", "TupleNode", "BoomRepr", "StrBoom", "SlotStoreNM")[k % 13], "enumerated": True, "mutations": [["move", size - 1, 1], ["detach", 1], ["move", 0, size - 1]] if size >= 3 else []}
 
 
 @st.composite
@@ -240,7 +248,7 @@ def random_cases(draw):
     idx = st.integers(0, size - 1)
     pairs = draw(st.lists(st.tuples(idx, idx).map(list), min_size=1, max_size=30))
     cross = draw(st.lists(st.tuples(idx, st.integers(0, osize - 1)).map(list), min_size=1, max_size=5))
-    return {"shape": shape, "other": other, "pairs": pairs, "cross": cross, "cls": draw(st.sampled_from(nodes.TREE_CLASSES + ["BoomRepr"])), "mutations": draw(strategies.tree_mutations())}
+    return {"shape": shape, "other": other, "pairs": pairs, "cross": cross, "cls": draw(st.sampled_from(nodes.TREE_CLASSES + ["BoomRepr", "StrBoom"])), "mutations": draw(strategies.tree_mutations())}
 
 
 def plan(tier, seed):
